@@ -125,9 +125,8 @@ class Check:
         self.pid, self.tier, self.seed = pid, tier, seed
         with open(os.path.join(VERIF, "tools", "props", pid + ".json")) as f:
             self.cfg = json.load(f)
-        self.rundir = os.path.join(BUILD, "run", pid)
-        shutil.rmtree(self.rundir, ignore_errors=True)
-        os.makedirs(self.rundir, exist_ok=True)
+        suffix = "" if REPO == "/repo" else "-" + hashlib.sha1(REPO.encode()).hexdigest()[:10]
+        self.rundir = os.path.join(BUILD, "run", pid + suffix)
         self.t0 = time.time()
         self.broken = []          # (kind, name, detail): proof obligations / ties that no longer check
         self.theorems = []
@@ -402,10 +401,26 @@ class Check:
         return known
 
     # -- main -----------------------------------------------------------------------------------
+    def build_phase(self):
+        """regeneration of Gen/, lake build, audit and cargo build share files between properties and
+        repositories: serialised by one global lock, which is released before the (long) run phase"""
+        with open(os.path.join(BUILD, "lock"), "w") as lk:
+            fcntl.flock(lk, fcntl.LOCK_EX)
+            self.lean_build()
+            return self.cargo_build()
+
+    def run_lock(self):
+        os.makedirs(os.path.join(BUILD, "run"), exist_ok=True)
+        lk = open(self.rundir + ".lock", "w")
+        fcntl.flock(lk, fcntl.LOCK_EX)
+        shutil.rmtree(self.rundir, ignore_errors=True)
+        os.makedirs(self.rundir, exist_ok=True)
+        return lk
+
     def main(self):
         cfg = self.cfg
-        self.lean_build()
-        built = self.cargo_build()
+        _lk = self.run_lock()
+        built = self.build_phase()
         results, timing = [], {}
         if built and self.driver_ok:
             # corpus first
@@ -552,8 +567,8 @@ class Check:
 
     def replay(self, path):
         body = json.load(open(path))
-        self.lean_build()
-        if not self.cargo_build():
+        _lk = self.run_lock()
+        if not self.build_phase():
             print("harness does not build")
             return 1
         if "case" not in body:
@@ -600,10 +615,8 @@ def main():
         else:
             i += 1
     os.makedirs(BUILD, exist_ok=True)
-    with open(os.path.join(BUILD, "lock"), "w") as lk:
-        fcntl.flock(lk, fcntl.LOCK_EX)
-        chk = Check(pid, tier, seed)
-        return chk.replay(replay) if replay else chk.main()
+    chk = Check(pid, tier, seed)
+    return chk.replay(replay) if replay else chk.main()
 
 
 if __name__ == "__main__":
